@@ -98,11 +98,12 @@ def discharge(ob, timeout_ms=10000, use_cvc5=True):
     return ob
 
 
-def verify_target(unit, cls, fn, timeout_ms=10000, concrete=None):
-    """-> dict with the obligations of one function of the unit"""
-    eng = E.Engine(unit, timeout_ms=timeout_ms)
+def generate_target(unit, cls, fn, concrete=None):
+    """symbolic execution of one function -> (result skeleton, list of Obligation objects)"""
+    eng = E.Engine(unit)
     res = {"target": (cls + "." if cls else "") + fn, "concrete": concrete or cls, "obligations": [], "status": "ok", "detail": "", "info": {}}
     t0 = time.time()
+    obs = []
     try:
         if cls is not None:
             fc = eng.find_contract(concrete or cls, fn) if concrete else unit.classes[cls].methods[fn]
@@ -112,30 +113,10 @@ def verify_target(unit, cls, fn, timeout_ms=10000, concrete=None):
             fc = unit.functions[fn]
         obs, info = eng.verify(fc, concrete)
         res["info"] = info
-        # reachability guard: at least one normal exit must be reachable under the assumptions (unless the contract says
-        # the function always raises); individual infeasible exits are fine
-        exits = [ob for ob in obs if ob.kind == "vacuity-exit"]
-        obs = [ob for ob in obs if ob.kind != "vacuity-exit"]
-        if exits:
-            reach = None
-            for ob in exits[:8]:
-                discharge(ob, min(timeout_ms, 3000))
-                if ob.result == "discharged":
-                    reach = ob
-                    break
-            rep = reach or exits[0]
-            rep.kind = "vacuity"
-            if reach is None and len(exits) <= 8:
-                rep.result, rep.detail = "vacuous", "no normal exit of the function is reachable under its assumptions"
-            elif reach is None:
-                rep.result, rep.detail = "discharged", "not decided"
-            obs.append(rep)
-        for ob in obs:
-            discharge(ob, timeout_ms)
-            res["obligations"].append({"name": ob.name if not concrete or concrete == cls else ob.name.replace(fc.qualname, concrete + "::" + fc.qualname, 1),
-                                       "kind": ob.kind, "result": ob.result, "ms": ob.ms, "backend": ob.backend,
-                                       "line": ob.line, "detail": ob.detail, "model": ob.model, "path": ob.path_id})
         res["info"]["stats"] = dict(eng.stats)
+        if concrete and concrete != cls:
+            for ob in obs:
+                ob.name = ob.name.replace(fc.qualname, concrete + "::" + fc.qualname, 1)
     except E.Unsupported as e:
         res["status"], res["detail"] = "unsupported", str(e)
     except E.StaleContract as e:
@@ -146,27 +127,66 @@ def verify_target(unit, cls, fn, timeout_ms=10000, concrete=None):
         res["status"], res["detail"] = "unsupported", "z3 sort error: %s\n%s" % (e, traceback.format_exc()[-800:])
     except Exception as e:
         res["status"], res["detail"] = "crash", traceback.format_exc()[-1500:]
-    res["wall_s"] = round(time.time() - t0, 3)
-    return res
+    res["gen_s"] = round(time.time() - t0, 3)
+    return res, obs
 
 
-def _worker(job):
-    unit_loader, idx, timeout_ms = job
+_OBS = []          # obligations of the unit being verified (inherited by forked solver processes)
+_OPTS = {}
+
+
+def _solve_idx(i):
+    ob = _OBS[i]
+    tmo = _OPTS["timeout_ms"]
+    if ob.kind == "vacuity-exit":
+        tmo = min(tmo, 3000)
+    discharge(ob, tmo, _OPTS.get("use_cvc5", False))
+    return i, ob.result, ob.ms, ob.backend, ob.detail, ob.model
+
+
+def verify_unit(unit_loader, timeout_ms=10000, jobs=8, use_cvc5=False):
+    """verifies every target of the unit built by unit_loader(): VC generation in this process, discharge in forked workers"""
+    import multiprocessing as mp
+    global _OBS, _OPTS
     frontend.clear_cache()
     unit = unit_loader()
-    t = unit.targets[idx]
-    cls, fn = t[0], t[1]
-    concrete = t[2] if len(t) > 2 else None
-    return verify_target(unit, cls, fn, timeout_ms, concrete)
-
-
-def verify_unit(unit_loader, timeout_ms=10000, jobs=8):
-    """verifies every target of the unit built by unit_loader() (a picklable module-level function)"""
-    import multiprocessing as mp
-    unit = unit_loader()
-    n = len(unit.targets)
-    if jobs <= 1 or n <= 1:
-        return [_worker((unit_loader, i, timeout_ms)) for i in range(n)]
-    ctx = mp.get_context("fork")
-    with ctx.Pool(min(jobs, n)) as pool:
-        return pool.map(_worker, [(unit_loader, i, timeout_ms) for i in range(n)], chunksize=1)
+    skeletons = []
+    _OBS = []
+    for t in unit.targets:
+        cls, fn = t[0], t[1]
+        concrete = t[2] if len(t) > 2 else None
+        res, obs = generate_target(unit, cls, fn, concrete)
+        skeletons.append((res, len(_OBS), len(obs)))
+        _OBS.extend(obs)
+    _OPTS = {"timeout_ms": timeout_ms, "use_cvc5": use_cvc5}
+    todo = [i for i, ob in enumerate(_OBS) if ob.result is None]
+    t0 = time.time()
+    if jobs <= 1 or len(todo) <= 1:
+        outs = [_solve_idx(i) for i in todo]
+    else:
+        ctx = mp.get_context("fork")
+        with ctx.Pool(min(jobs, len(todo))) as pool:
+            outs = pool.map(_solve_idx, todo, chunksize=1)
+    for i, result, ms, backend, detail, model in outs:
+        ob = _OBS[i]
+        ob.result, ob.ms, ob.backend, ob.detail, ob.model = result, ms, backend, detail, model
+    out = []
+    for res, start, n in skeletons:
+        obs = _OBS[start:start + n]
+        # reachability guard: at least one normal exit must be reachable under the assumptions
+        exits = [ob for ob in obs if ob.kind == "vacuity-exit"]
+        keep = [ob for ob in obs if ob.kind != "vacuity-exit"]
+        if exits:
+            reach = next((ob for ob in exits if ob.result == "discharged"), None)
+            rep = reach or exits[0]
+            rep.kind = "vacuity"
+            if reach is None:
+                rep.result, rep.detail = "vacuous", "no normal exit of the function is reachable under its assumptions"
+            keep.append(rep)
+        for ob in keep:
+            res["obligations"].append({"name": ob.name, "kind": ob.kind, "result": ob.result, "ms": ob.ms, "backend": ob.backend,
+                                       "line": ob.line, "detail": ob.detail, "model": ob.model, "path": ob.path_id})
+        res["wall_s"] = res.get("gen_s", 0)
+        out.append(res)
+    _OBS = []
+    return out
